@@ -53,61 +53,121 @@ theorem good_evalPsiHat (P : Problem α) (i : Iterate α) (h : ProxCons P i) :
 theorem good_backtrackStep (P : Problem α) (i : Iterate α) : Good P (backtrackStep P i) :=
   good_evalPsiHat P _ (proxCons_evalProxGradStep P _)
 
-theorem backtrackQub_good (P : Problem α) (pr : Params α) (f : Nat) (c : Iterate α) (t b : Nat)
-    (h : Good P c) : Good P (backtrackQub P pr f c t b).1 := by
+theorem backtrackQub_good (P : Problem α) (pr : Params α) (stop : Nat → Bool) (f : Nat)
+    (c : Iterate α) (t b : Nat)
+    (h : Good P c) : Good P (backtrackQub P pr stop f c t b).1 := by
   induction f generalizing c t b with
   | zero => simpa [backtrackQub] using h
   | succ f ih =>
     unfold backtrackQub
     split_ifs
+    · exact h
     · exact ih _ _ _ (good_backtrackStep P c)
     · exact h
 
-theorem backtrackQub_qubOK (P : Problem α) (pr : Params α) (f : Nat) (c : Iterate α) (t b : Nat)
-    (hf : (backtrackQub P pr f c t b).2.2.2 = false) : QubOK pr (backtrackQub P pr f c t b).1 := by
+/-- `backtrack_qub` ends with the quadratic upper bound met (or `L ≥ L_max`) — unless it was left
+    through its stop poll, i.e. the flag is visible at the tick the loop ends at. -/
+theorem backtrackQub_qubOK (P : Problem α) (pr : Params α) (stop : Nat → Bool) (f : Nat)
+    (c : Iterate α) (t b : Nat)
+    (hf : (backtrackQub P pr stop f c t b).2.2.2 = false)
+    (hs : stop (backtrackQub P pr stop f c t b).2.1 = false) :
+    QubOK pr (backtrackQub P pr stop f c t b).1 := by
   induction f generalizing c t b with
   | zero => simp [backtrackQub] at hf
   | succ f ih =>
-    unfold backtrackQub at hf ⊢
-    split_ifs at hf ⊢ with hc
-    · exact ih _ _ _ hf
+    unfold backtrackQub at hf hs ⊢
+    split_ifs at hf hs ⊢ with hst hc
+    · simp only [] at hs; rw [hst] at hs; exact absurd hs (by decide)
+    · exact ih _ _ _ hf hs
     · unfold QubOK; simpa using hc
 
+/-- **Once the flag is visible `backtrack_qub` makes no further call.** -/
+theorem backtrackQub_stop_noop (P : Problem α) (pr : Params α) (stop : Nat → Bool) (f : Nat)
+    (c : Iterate α) (t b : Nat) (h : stop t = true) :
+    backtrackQub P pr stop (f + 1) c t b = (c, t, b, false) := by
+  unfold backtrackQub; simp [h]
+
 /-- `backtrack_qub` never touches `x`, `ψ(x)`, `∇ψ(x)`. -/
-theorem backtrackQub_same (P : Problem α) (pr : Params α) (f : Nat) (c : Iterate α) (t b : Nat) :
-    (backtrackQub P pr f c t b).1.x = c.x ∧ (backtrackQub P pr f c t b).1.psix = c.psix ∧
-    (backtrackQub P pr f c t b).1.gradPsi = c.gradPsi := by
+theorem backtrackQub_same (P : Problem α) (pr : Params α) (stop : Nat → Bool) (f : Nat)
+    (c : Iterate α) (t b : Nat) :
+    (backtrackQub P pr stop f c t b).1.x = c.x ∧ (backtrackQub P pr stop f c t b).1.psix = c.psix ∧
+    (backtrackQub P pr stop f c t b).1.gradPsi = c.gradPsi := by
   induction f generalizing c t b with
   | zero => simp [backtrackQub]
   | succ f ih =>
     unfold backtrackQub
     split_ifs
+    · exact ⟨rfl, rfl, rfl⟩
     · have := ih (backtrackStep P c) (t + 2) (b + 1)
       simpa [backtrackStep, evalPsiHat, evalProxGradStep] using this
     · exact ⟨rfl, rfl, rfl⟩
 
 /-- Tick accounting of `backtrack_qub`: two evaluations per counted backtrack. -/
-theorem backtrackQub_tick (P : Problem α) (pr : Params α) (f : Nat) (c : Iterate α) (t b : Nat) :
-    (backtrackQub P pr f c t b).2.1 + 2 * b = t + 2 * (backtrackQub P pr f c t b).2.2.1 ∧
-    b ≤ (backtrackQub P pr f c t b).2.2.1 := by
+theorem backtrackQub_tick (P : Problem α) (pr : Params α) (stop : Nat → Bool) (f : Nat)
+    (c : Iterate α) (t b : Nat) :
+    (backtrackQub P pr stop f c t b).2.1 + 2 * b = t + 2 * (backtrackQub P pr stop f c t b).2.2.1 ∧
+    b ≤ (backtrackQub P pr stop f c t b).2.2.1 := by
   induction f generalizing c t b with
   | zero => simp [backtrackQub]
   | succ f ih =>
     unfold backtrackQub
     split_ifs
+    · simp
     · have := ih (backtrackStep P c) (t + 2) (b + 1)
       omega
     · simp
 
-theorem initState_good (co : Consts α) (P : Problem α) (d0 : D) (pr : Params α) (x0 gV : Vec α)
-    (s : St α D) (h : initState co P d0 pr x0 gV = .inr s) :
-    Good P s.curr ∧ (s.fuelOut = false → QubOK pr s.curr) ∧ s.k = 0 ∧ s.cbs = [] := by
+/-- The stop flag is never lowered during a solve. -/
+def StopMono (stop : Nat → Bool) : Prop := ∀ a b, a ≤ b → stop a = true → stop b = true
+
+/-- No stop request is visible up to (and including) tick `t`. -/
+def Quiet (stop : Nat → Bool) (t : Nat) : Prop := ∀ t', t' ≤ t → stop t' = false
+
+theorem Quiet.mono {stop : Nat → Bool} {a b : Nat} (h : Quiet stop b) (hab : a ≤ b) : Quiet stop a :=
+  fun t' ht => h t' (Nat.le_trans ht hab)
+
+theorem Quiet.here {stop : Nat → Bool} {t : Nat} (h : Quiet stop t) : stop t = false :=
+  h t (Nat.le_refl t)
+
+theorem quiet_of_mono {stop : Nat → Bool} (hm : StopMono stop) {t : Nat} (h : stop t = false) :
+    Quiet stop t := by
+  intro t' ht
+  cases hs : stop t'
+  · rfl
+  · rw [hm t' t ht hs] at h; exact absurd h (by decide)
+
+/-- With a flag that is never lowered and visible from tick `t₀` on, `backtrack_qub` entered at tick
+    `t` is left at tick `≤ max t (t₀ + 1)`: a pass (2 calls) is only started while the flag is
+    invisible (tick `< t₀`) — whatever the number of passes the quadratic upper bound would ask for. -/
+theorem backtrackQub_tick_bound (P : Problem α) (pr : Params α) (stop : Nat → Bool)
+    (hm : StopMono stop) (t0 : Nat) (h0 : stop t0 = true) (f : Nat) (c : Iterate α) (t b : Nat) :
+    (backtrackQub P pr stop f c t b).2.1 ≤ max t (t0 + 1) := by
+  induction f generalizing c t b with
+  | zero => simp only [backtrackQub]; omega
+  | succ f ih =>
+    unfold backtrackQub
+    by_cases hst : stop t
+    · simp only [hst, if_true]; omega
+    · simp only [hst, Bool.false_eq_true, if_false]
+      have hlt : t < t0 := by
+        apply Nat.lt_of_not_le
+        intro hc
+        exact hst (hm t0 t hc h0)
+      split_ifs
+      · have := ih (backtrackStep P c) (t + 2) (b + 1)
+        omega
+      · simp only []; omega
+
+theorem initState_good (co : Consts α) (P : Problem α) (d0 : D) (pr : Params α) (stop : Nat → Bool)
+    (x0 gV : Vec α) (s : St α D) (h : initState co P d0 pr stop x0 gV = .inr s) :
+    Good P s.curr ∧ (s.fuelOut = false → stop s.tick = false → QubOK pr s.curr) ∧ s.k = 0 ∧
+    s.cbs = [] := by
   unfold initState at h
   simp only [] at h
   split_ifs at h
   injection h with h; subst h
-  exact ⟨backtrackQub_good P pr _ _ _ _ (good_evalPsiHat P _ (proxCons_evalProxGradStep P _)),
-         fun hf => backtrackQub_qubOK P pr _ _ _ _ hf, rfl, rfl⟩
+  exact ⟨backtrackQub_good P pr stop _ _ _ _ (good_evalPsiHat P _ (proxCons_evalProxGradStep P _)),
+         fun hf hs => backtrackQub_qubOK P pr stop _ _ _ _ hf hs, rfl, rfl⟩
 
 /-! ### One iteration -/
 
@@ -120,47 +180,143 @@ theorem headStep_same (P : Problem α) (pr : Params α) (stop : Nat → Bool) (o
   simp only []
   refine ⟨by triv, by triv, by triv, ?_, ?_, by triv, by triv⟩ <;> split_ifs <;> cases pr.stopCrit <;> simp <;> omega
 
+/-! #### ticks (events) per stage -/
+
+theorem fbsStep_tick (P : Problem α) (pr : Params α) (s : St α D) :
+    s.tick + 2 ≤ (fbsStep P pr s).2.2 ∧ (fbsStep P pr s).2.2 ≤ s.tick + 3 := by
+  unfold fbsStep; simp only []; split_ifs <;> dsimp only <;> omega
+
+theorem dirInit_tick (dir : Direction D α) (s : St α D) (prox : Iterate α) (t : Nat) :
+    t ≤ (dirInit dir s prox t).2.2 ∧ (dirInit dir s prox t).2.2 ≤ t + 2 := by
+  unfold dirInit; simp only []; split_ifs <;> dsimp only <;> omega
+
+theorem trustRegionStep_tick (co : Consts α) (dir : Direction D α) (d : D) (t : Nat) (prox : Iterate α)
+    (Delta : α) (q : Vec α) :
+    t + 1 ≤ (trustRegionStep co dir d t prox Delta q).2.1 ∧
+    (trustRegionStep co dir d t prox Delta q).2.1 ≤ t + 2 := by
+  unfold trustRegionStep; simp only []; split_ifs <;> dsimp only <;> omega
+
+theorem candidateFbe_tick (P : Problem α) (pr : Params α) (stop : Nat → Bool) (prox cand : Iterate α)
+    (q : Vec α) (t : Nat) :
+    t + 2 ≤ (candidateFbe P pr stop prox cand q t).2.1 ∧
+    (candidateFbe P pr stop prox cand q t).2.1 ≤ t + 3 + 2 * (candidateFbe P pr stop prox cand q t).2.2.1 := by
+  unfold candidateFbe
+  simp only []
+  split_ifs
+  · generalize evalPsiHat P _ = c0
+    have := backtrackQub_tick P pr stop pr.qubFuel c0 (t + 3) 0
+    omega
+  · dsimp only; omega
+
+theorem trStage_tick (co : Consts α) (P : Problem α) (dir : Direction D α) (pr : Params α)
+    (stop : Nat → Bool) (s : St α D) :
+    s.tick + 2 ≤ (trStage co P dir pr stop s).tick ∧
+    (trStage co P dir pr stop s).tick ≤ s.tick + 10 + 2 * (trStage co P dir pr stop s).backtracks := by
+  have h1 := fbsStep_tick P pr s
+  have h2 := dirInit_tick dir s (fbsStep P pr s).1 (fbsStep P pr s).2.2
+  unfold trStage
+  simp only []
+  split_ifs
+  · unfold trAttempt
+    simp only []
+    generalize htr : trustRegionStep co dir _ _ _ _ _ = tr
+    have h3 := trustRegionStep_tick co dir (dirInit dir s (fbsStep P pr s).1 (fbsStep P pr s).2.2).1
+      (dirInit dir s (fbsStep P pr s).1 (fbsStep P pr s).2.2).2.2 (fbsStep P pr s).1 s.Delta s.q
+    rw [htr] at h3
+    split_ifs
+    · have h4 := candidateFbe_tick P pr stop (fbsStep P pr s).1 s.cand tr.2.2.1 tr.2.1
+      simp only []
+      omega
+    · simp only []; omega
+  · simp only []; omega
+
+theorem acceptStage_tick (P : Problem α) (dir : Direction D α) (pr : Params α) (stop : Nat → Bool)
+    (m : Mid α D) (t0 : Nat) :
+    t0 + 1 ≤ (acceptStage P dir pr stop m t0).tick ∧
+    (acceptStage P dir pr stop m t0).tick ≤ t0 + 4 + 2 * (acceptStage P dir pr stop m t0).backtracks := by
+  unfold acceptStage
+  simp only []
+  by_cases hc : pr.computeRatioUsingNewStepsize
+  · simp only [hc, Bool.not_true, Bool.false_eq_true, if_false]
+    split_ifs <;> dsimp only <;> omega
+  · simp only [hc, Bool.not_false, if_true]
+    have := backtrackQub_tick P pr stop pr.qubFuel (evalPsiHat P m.cand) (t0 + 1) 0
+    split_ifs <;> dsimp only <;> omega
+
+theorem rejectStage_tick (P : Problem α) (dir : Direction D α) (pr : Params α) (stop : Nat → Bool)
+    (m : Mid α D) (t0 : Nat) :
+    t0 + 1 ≤ (rejectStage P dir pr stop m t0).tick ∧
+    (rejectStage P dir pr stop m t0).tick ≤ t0 + 4 + 2 * (rejectStage P dir pr stop m t0).backtracks := by
+  unfold rejectStage
+  simp only []
+  have := backtrackQub_tick P pr stop pr.qubFuel (evalPsiHat P m.prox) (t0 + 1) 0
+  split_ifs <;> dsimp only <;> omega
+
+/-- The step-size loop of the accept stage (when it runs there) ends no later than the stage. -/
+theorem acceptStage_bt_le (P : Problem α) (dir : Direction D α) (pr : Params α) (stop : Nat → Bool)
+    (m : Mid α D) (t0 : Nat) (hc : pr.computeRatioUsingNewStepsize = false) :
+    (backtrackQub P pr stop pr.qubFuel (evalPsiHat P m.cand) (t0 + 1) 0).2.1
+      ≤ (acceptStage P dir pr stop m t0).tick := by
+  unfold acceptStage
+  simp only [hc, Bool.not_false, if_true]
+  split_ifs <;> dsimp only <;> omega
+
+/-- The step-size loop of the reject stage ends no later than the stage. -/
+theorem rejectStage_bt_le (P : Problem α) (dir : Direction D α) (pr : Params α) (stop : Nat → Bool)
+    (m : Mid α D) (t0 : Nat) :
+    (backtrackQub P pr stop pr.qubFuel (evalPsiHat P m.prox) (t0 + 1) 0).2.1
+      ≤ (rejectStage P dir pr stop m t0).tick := by
+  unfold rejectStage
+  simp only []
+  split_ifs <;> dsimp only <;> omega
+
 /-- What an *accepted* candidate is known to carry: a consistent prox step, and — when the ratio
-    is computed with the new step size — also `ψ(x̂)`, `ŷ` and the quadratic upper bound. -/
-def CandOK (P : Problem α) (pr : Params α) (cand : Iterate α) (fuelOut : Bool) : Prop :=
-  if pr.computeRatioUsingNewStepsize then Good P cand ∧ (fuelOut = false → QubOK pr cand)
+    is computed with the new step size — also `ψ(x̂)`, `ŷ` and the quadratic upper bound (unless its
+    `backtrack_qub` was left through the stop poll: `tick` is the tick that loop ended at). -/
+def CandOK (P : Problem α) (pr : Params α) (stop : Nat → Bool) (cand : Iterate α) (fuelOut : Bool)
+    (tick : Nat) : Prop :=
+  if pr.computeRatioUsingNewStepsize then
+    Good P cand ∧ (fuelOut = false → stop tick = false → QubOK pr cand)
   else ProxCons P cand
 
-theorem candidateFbe_spec (P : Problem α) (pr : Params α) (prox cand : Iterate α) (q : Vec α)
-    (t : Nat) :
-    CandOK P pr (candidateFbe P pr prox cand q t).1 (candidateFbe P pr prox cand q t).2.2.2 ∧
-    (candidateFbe P pr prox cand q t).1.x = vadd prox.x q := by
+theorem candidateFbe_spec (P : Problem α) (pr : Params α) (stop : Nat → Bool) (prox cand : Iterate α)
+    (q : Vec α) (t : Nat) :
+    CandOK P pr stop (candidateFbe P pr stop prox cand q t).1 (candidateFbe P pr stop prox cand q t).2.2.2
+      (candidateFbe P pr stop prox cand q t).2.1 ∧
+    (candidateFbe P pr stop prox cand q t).1.x = vadd prox.x q := by
   unfold candidateFbe CandOK
   by_cases hc : pr.computeRatioUsingNewStepsize
   · simp only [hc, if_true]
-    refine ⟨⟨backtrackQub_good P pr _ _ _ _ (good_evalPsiHat P _ (proxCons_evalProxGradStep P _)),
-      fun hf => backtrackQub_qubOK P pr _ _ _ _ hf⟩, ?_⟩
-    rw [(backtrackQub_same P pr _ _ _ _).1]
+    refine ⟨⟨backtrackQub_good P pr stop _ _ _ _ (good_evalPsiHat P _ (proxCons_evalProxGradStep P _)),
+      fun hf hs => backtrackQub_qubOK P pr stop _ _ _ _ hf hs⟩, ?_⟩
+    rw [(backtrackQub_same P pr stop _ _ _ _).1]
     simp [evalPsiHat, evalProxGradStep, evalPsiGradPsi]
   · simp only [hc, Bool.false_eq_true, if_false]
     exact ⟨proxCons_evalProxGradStep P _, by simp [evalProxGradStep, evalPsiGradPsi]⟩
 
 theorem trAttempt_spec (co : Consts α) (P : Problem α) (dir : Direction D α) (pr : Params α)
-    (b : Mid α D) (hb : b.accept = false) :
-    (trAttempt co P dir pr b).curr = b.curr ∧ (trAttempt co P dir pr b).prox = b.prox ∧
-    ((trAttempt co P dir pr b).accept = true →
-      CandOK P pr (trAttempt co P dir pr b).cand (trAttempt co P dir pr b).fuelOut ∧
-      (trAttempt co P dir pr b).cand.x = vadd b.prox.x (trAttempt co P dir pr b).q) := by
+    (stop : Nat → Bool) (b : Mid α D) (hb : b.accept = false) :
+    (trAttempt co P dir pr stop b).curr = b.curr ∧ (trAttempt co P dir pr stop b).prox = b.prox ∧
+    ((trAttempt co P dir pr stop b).accept = true →
+      CandOK P pr stop (trAttempt co P dir pr stop b).cand (trAttempt co P dir pr stop b).fuelOut
+        (trAttempt co P dir pr stop b).tick ∧
+      (trAttempt co P dir pr stop b).cand.x = vadd b.prox.x (trAttempt co P dir pr stop b).q) := by
   unfold trAttempt
   simp only []
   split_ifs
-  · exact ⟨by triv, by triv, fun _ => candidateFbe_spec P pr _ _ _ _⟩
+  · exact ⟨by triv, by triv, fun _ => candidateFbe_spec P pr stop _ _ _ _⟩
   · exact ⟨by triv, by triv, fun h => absurd h (by simp [hb])⟩
 
 /-- What `trStage` guarantees: the current iterate is untouched, `prox` carries a consistent prox
     step at `x = curr.x̂`, and an *accepted* candidate is `CandOK` at `x = x̂ₖ + q`. -/
 theorem trStage_spec (co : Consts α) (P : Problem α) (dir : Direction D α) (pr : Params α)
-    (s : St α D) :
-    (trStage co P dir pr s).curr = s.curr ∧ ProxCons P (trStage co P dir pr s).prox ∧
-    (trStage co P dir pr s).prox.x = s.curr.xhat ∧
-    ((trStage co P dir pr s).accept = true →
-      CandOK P pr (trStage co P dir pr s).cand (trStage co P dir pr s).fuelOut ∧
-      (trStage co P dir pr s).cand.x = vadd s.curr.xhat (trStage co P dir pr s).q) := by
+    (stop : Nat → Bool) (s : St α D) :
+    (trStage co P dir pr stop s).curr = s.curr ∧ ProxCons P (trStage co P dir pr stop s).prox ∧
+    (trStage co P dir pr stop s).prox.x = s.curr.xhat ∧
+    ((trStage co P dir pr stop s).accept = true →
+      CandOK P pr stop (trStage co P dir pr stop s).cand (trStage co P dir pr stop s).fuelOut
+        (trStage co P dir pr stop s).tick ∧
+      (trStage co P dir pr stop s).cand.x = vadd s.curr.xhat (trStage co P dir pr stop s).q) := by
   have hx : (fbsStep P pr s).1.x = s.curr.xhat := by
     simp [fbsStep, evalProxGradStep, evalPsiGradPsi]
   have hp : ProxCons P (fbsStep P pr s).1 := by
@@ -168,7 +324,7 @@ theorem trStage_spec (co : Consts α) (P : Problem α) (dir : Direction D α) (p
   unfold trStage
   simp only []
   split_ifs
-  · have := trAttempt_spec co P dir pr
+  · have := trAttempt_spec co P dir pr stop
       { curr := s.curr, prox := (fbsStep P pr s).1, cand := s.cand, gradPsiHat := (fbsStep P pr s).2.1,
         q := s.q, d := (dirInit dir s (fbsStep P pr s).1 (fbsStep P pr s).2.2).1,
         tick := (dirInit dir s (fbsStep P pr s).1 (fbsStep P pr s).2.2).2.2, accept := false,
@@ -179,66 +335,91 @@ theorem trStage_spec (co : Consts α) (P : Problem α) (dir : Direction D α) (p
     rw [← hx]; exact h2
   · exact ⟨by triv, hp, hx, fun h => absurd h (by simp)⟩
 
-theorem acceptStage_good (P : Problem α) (dir : Direction D α) (pr : Params α) (m : Mid α D) (t0 : Nat)
-    (h : CandOK P pr m.cand m.fuelOut) :
-    Good P (acceptStage P dir pr m t0).curr ∧
-    (m.fuelOut = false → (acceptStage P dir pr m t0).fuelOut = false →
-      QubOK pr (acceptStage P dir pr m t0).curr) ∧
-    (acceptStage P dir pr m t0).curr.x = m.cand.x := by
-  unfold acceptStage
-  unfold CandOK at h
+theorem acceptStage_good (P : Problem α) (dir : Direction D α) (pr : Params α) (stop : Nat → Bool)
+    (m : Mid α D) (t0 : Nat) (h : CandOK P pr stop m.cand m.fuelOut m.tick) (ht : m.tick ≤ t0) :
+    Good P (acceptStage P dir pr stop m t0).curr ∧
+    (m.fuelOut = false → (acceptStage P dir pr stop m t0).fuelOut = false →
+      Quiet stop (acceptStage P dir pr stop m t0).tick → QubOK pr (acceptStage P dir pr stop m t0).curr) ∧
+    (acceptStage P dir pr stop m t0).curr.x = m.cand.x := by
+  have htk := (acceptStage_tick P dir pr stop m t0).1
   by_cases hc : pr.computeRatioUsingNewStepsize
-  · simp only [hc, if_true, Bool.not_true, Bool.false_eq_true, if_false] at h ⊢
-    exact ⟨h.1, fun h1 _ => h.2 h1, by triv⟩
-  · simp only [hc, Bool.false_eq_true, if_false, Bool.not_false, if_true] at h ⊢
-    refine ⟨backtrackQub_good P pr _ _ _ _ (good_evalPsiHat P _ h),
-      fun _ hf => backtrackQub_qubOK P pr _ _ _ _ hf, ?_⟩
-    rw [(backtrackQub_same P pr _ _ _ _).1]; rfl
+  · unfold CandOK at h
+    simp only [hc, if_true] at h
+    have hcurr : (acceptStage P dir pr stop m t0).curr = m.cand := by
+      unfold acceptStage; simp only [hc, Bool.not_true, Bool.false_eq_true, if_false]
+    rw [hcurr]
+    exact ⟨h.1, fun h1 _ hq => h.2 h1 (hq m.tick (by omega)), rfl⟩
+  · have hc' : pr.computeRatioUsingNewStepsize = false := by simpa using hc
+    have hle := acceptStage_bt_le P dir pr stop m t0 hc'
+    unfold CandOK at h
+    simp only [hc, Bool.false_eq_true, if_false] at h
+    have hcurr : (acceptStage P dir pr stop m t0).curr =
+        (backtrackQub P pr stop pr.qubFuel (evalPsiHat P m.cand) (t0 + 1) 0).1 := by
+      unfold acceptStage; simp only [hc, Bool.false_eq_true, Bool.not_false, if_true]
+    have hfo : (acceptStage P dir pr stop m t0).fuelOut =
+        (backtrackQub P pr stop pr.qubFuel (evalPsiHat P m.cand) (t0 + 1) 0).2.2.2 := by
+      unfold acceptStage; simp only [hc, Bool.false_eq_true, Bool.not_false, if_true]
+    rw [hcurr, hfo]
+    refine ⟨backtrackQub_good P pr stop _ _ _ _ (good_evalPsiHat P _ h),
+      fun _ hf hq => backtrackQub_qubOK P pr stop _ _ _ _ hf (hq _ hle), ?_⟩
+    rw [(backtrackQub_same P pr stop _ _ _ _).1]; rfl
 
-theorem rejectStage_good (P : Problem α) (dir : Direction D α) (pr : Params α) (m : Mid α D) (t0 : Nat)
-    (h : ProxCons P m.prox) :
-    Good P (rejectStage P dir pr m t0).curr ∧
-    ((rejectStage P dir pr m t0).fuelOut = false → QubOK pr (rejectStage P dir pr m t0).curr) ∧
-    (rejectStage P dir pr m t0).curr.x = m.prox.x := by
-  unfold rejectStage
-  simp only []
-  refine ⟨backtrackQub_good P pr _ _ _ _ (good_evalPsiHat P _ h),
-    fun hf => backtrackQub_qubOK P pr _ _ _ _ hf, ?_⟩
-  rw [(backtrackQub_same P pr _ _ _ _).1]; rfl
+theorem rejectStage_good (P : Problem α) (dir : Direction D α) (pr : Params α) (stop : Nat → Bool)
+    (m : Mid α D) (t0 : Nat) (h : ProxCons P m.prox) :
+    Good P (rejectStage P dir pr stop m t0).curr ∧
+    ((rejectStage P dir pr stop m t0).fuelOut = false → Quiet stop (rejectStage P dir pr stop m t0).tick →
+      QubOK pr (rejectStage P dir pr stop m t0).curr) ∧
+    (rejectStage P dir pr stop m t0).curr.x = m.prox.x := by
+  have hle := rejectStage_bt_le P dir pr stop m t0
+  have hcurr : (rejectStage P dir pr stop m t0).curr =
+      (backtrackQub P pr stop pr.qubFuel (evalPsiHat P m.prox) (t0 + 1) 0).1 := by
+    unfold rejectStage; simp only []
+  have hfo : (rejectStage P dir pr stop m t0).fuelOut =
+      (backtrackQub P pr stop pr.qubFuel (evalPsiHat P m.prox) (t0 + 1) 0).2.2.2 := by
+    unfold rejectStage; simp only []
+  rw [hcurr, hfo]
+  refine ⟨backtrackQub_good P pr stop _ _ _ _ (good_evalPsiHat P _ h),
+    fun hf hq => backtrackQub_qubOK P pr stop _ _ _ _ hf (hq _ hle), ?_⟩
+  rw [(backtrackQub_same P pr stop _ _ _ _).1]; rfl
 
 /-- **One pass of the loop body**: whatever the direction provider returned and whichever path was
     taken, the iterate that is current afterwards carries a consistent prox step and ŷ; it
-    satisfies the quadratic upper bound unless `L ≥ L_max` (if no model fuel ran out); it is the
-    candidate `x̂ₖ + q` when the candidate was accepted and the forward-backward point `x̂ₖ`
-    otherwise; `k` advances by one. -/
+    satisfies the quadratic upper bound unless `L ≥ L_max` (if no model fuel ran out and no stop
+    request was visible up to the end of the pass — a visible request cuts `backtrack_qub` short);
+    it is the candidate `x̂ₖ + q` when the candidate was accepted and the forward-backward point
+    `x̂ₖ` otherwise; `k` advances by one. -/
 theorem iterBody_spec (co : Consts α) (P : Problem α) (dir : Direction D α) (pr : Params α)
-    (s : St α D) (eps : α) :
-    Good P (iterBody co P dir pr s eps).curr ∧
-    ((iterBody co P dir pr s eps).fuelOut = false → QubOK pr (iterBody co P dir pr s eps).curr) ∧
-    (iterBody co P dir pr s eps).k = s.k + 1 ∧
-    (iterBody co P dir pr s eps).curr.x =
-      (if (iterBody co P dir pr s eps).accept then vadd s.curr.xhat (iterBody co P dir pr s eps).q
+    (stop : Nat → Bool) (s : St α D) (eps : α) :
+    Good P (iterBody co P dir pr stop s eps).curr ∧
+    ((iterBody co P dir pr stop s eps).fuelOut = false → Quiet stop (iterBody co P dir pr stop s eps).tick →
+      QubOK pr (iterBody co P dir pr stop s eps).curr) ∧
+    (iterBody co P dir pr stop s eps).k = s.k + 1 ∧
+    (iterBody co P dir pr stop s eps).curr.x =
+      (if (iterBody co P dir pr stop s eps).accept then vadd s.curr.xhat (iterBody co P dir pr stop s eps).q
        else s.curr.xhat) := by
-  have hs := trStage_spec co P dir pr s
+  have hs := trStage_spec co P dir pr stop s
   unfold iterBody
   simp only []
-  by_cases ha : (trStage co P dir pr s).accept
+  by_cases ha : (trStage co P dir pr stop s).accept
   · simp only [ha, if_true]
     have hc := hs.2.2.2 ha
-    have := acceptStage_good P dir pr (trStage co P dir pr s) ((trStage co P dir pr s).tick + 1) hc.1
-    refine ⟨this.1, fun hf => ?_, by triv, ?_⟩
+    have := acceptStage_good P dir pr stop (trStage co P dir pr stop s)
+      ((trStage co P dir pr stop s).tick + 1) hc.1 (Nat.le_succ _)
+    refine ⟨this.1, fun hf hq => ?_, by triv, ?_⟩
     · simp only [Bool.or_eq_false_iff] at hf
-      exact this.2.1 hf.1.2 hf.2
+      exact this.2.1 hf.1.2 hf.2 hq
     · rw [this.2.2]; exact hc.2
   · simp only [ha, Bool.false_eq_true, if_false]
-    have := rejectStage_good P dir pr (trStage co P dir pr s) ((trStage co P dir pr s).tick + 1) hs.2.1
-    refine ⟨this.1, fun hf => ?_, by triv, ?_⟩
+    have := rejectStage_good P dir pr stop (trStage co P dir pr stop s)
+      ((trStage co P dir pr stop s).tick + 1) hs.2.1
+    refine ⟨this.1, fun hf hq => ?_, by triv, ?_⟩
     · simp only [Bool.or_eq_false_iff] at hf
-      exact this.2.1 hf.2
+      exact this.2.1 hf.2 hq
     · rw [this.2.2]; exact hs.2.2.1
 
 theorem iterBody_fuelOut_mono (co : Consts α) (P : Problem α) (dir : Direction D α) (pr : Params α)
-    (s : St α D) (eps : α) (hf : s.fuelOut = true) : (iterBody co P dir pr s eps).fuelOut = true := by
+    (stop : Nat → Bool) (s : St α D) (eps : α) (hf : s.fuelOut = true) :
+    (iterBody co P dir pr stop s eps).fuelOut = true := by
   unfold iterBody; simp [hf]
 
 /-! ### Exit block and main loop -/
@@ -305,7 +486,7 @@ theorem mainLoop_ok (co : Consts α) (P : Problem α) (dir : Direction D α) (pr
     have hh := headStep_same P pr stop oot s
     split_ifs at hr ⊢ with hb
     · exact exitBlock_ok co P pr _ _ _ x0 y Sig errz0 (by rw [hh.1]; exact h)
-    · exact ih _ (iterBody_spec co P dir pr _ _).1 hr
+    · exact ih _ (iterBody_spec co P dir pr stop _ _).1 hr
 
 /-- **Every exit is a head exit** (the model's own loop fuel `max_iter + 1` never runs out), and the
     head it exits from has `k ≤ max_iter`, a current iterate that is `Good` and — if no
@@ -334,8 +515,8 @@ theorem mainLoop_exit_at_head (co : Consts α) (P : Problem α) (dir : Direction
         unfold statusChain at hb'
         simp only [he] at hb'
         split_ifs at hb' <;> simp_all
-      have hspec := iterBody_spec co P dir pr (headStep P pr stop oot s).1 (headStep P pr stop oot s).2.1
-      have hk' : (iterBody co P dir pr (headStep P pr stop oot s).1 (headStep P pr stop oot s).2.1).k + f
+      have hspec := iterBody_spec co P dir pr stop (headStep P pr stop oot s).1 (headStep P pr stop oot s).2.1
+      have hk' : (iterBody co P dir pr stop (headStep P pr stop oot s).1 (headStep P pr stop oot s).2.1).k + f
           = pr.maxIter + 1 := by rw [hspec.2.2.1, hh.2.2.1]; omega
       obtain ⟨s', h1, h2, h3, h4, h5⟩ := ih _ hk' (by omega) hspec.1
       refine ⟨s', h1, ?_, h3, h4, h5⟩
@@ -370,22 +551,72 @@ theorem headStep_eps (P : Problem α) (pr : Params α) (stop : Nat → Bool) (oo
   simp [h]
 
 theorem iterBody_cbs (co : Consts α) (P : Problem α) (dir : Direction D α) (pr : Params α)
+    (stop : Nat → Bool)
     (s : St α D) (eps : α) :
-    ∃ cb : Callback α, (iterBody co P dir pr s eps).cbs = cb :: s.cbs ∧ cb.it = s.curr ∧
+    ∃ cb : Callback α, (iterBody co P dir pr stop s eps).cbs = cb :: s.cbs ∧ cb.it = s.curr ∧
       cb.k = s.k ∧ cb.status = .Busy ∧ cb.eps = eps := by
   unfold iterBody
   simp only []
-  exact ⟨_, rfl, (trStage_spec co P dir pr s).1, rfl, rfl, rfl⟩
+  exact ⟨_, rfl, (trStage_spec co P dir pr stop s).1, rfl, rfl, rfl⟩
+
+/-- Every iterate handed to the progress callback carries a consistent prox step and ŷ — for every
+    stop schedule. -/
+theorem mainLoop_callbacks_good (co : Consts α) (P : Problem α) (dir : Direction D α) (pr : Params α)
+    (stop : Nat → Bool) (oot : Bool) (x0 y Sig errz0 : Vec α) (fuel : Nat) (s : St α D)
+    (h : Good P s.curr) (hc : ∀ cb ∈ s.cbs, Good P cb.it)
+    (hr : (mainLoop co P dir pr stop oot x0 y Sig errz0 fuel s).fuelOut = false) :
+    ∀ cb ∈ (mainLoop co P dir pr stop oot x0 y Sig errz0 fuel s).callbacks, Good P cb.it := by
+  induction fuel generalizing s with
+  | zero => simp [mainLoop] at hr
+  | succ f ih =>
+    unfold mainLoop at hr ⊢
+    simp only [] at hr ⊢
+    have hh := headStep_same P pr stop oot s
+    have hcb := headStep_cbs P pr stop oot s
+    split_ifs at hr ⊢ with hb
+    · intro cb hmem
+      unfold exitBlock at hmem
+      simp only [List.mem_reverse, List.mem_cons] at hmem
+      rcases hmem with rfl | hmem
+      · simp only [hh.1]; exact h
+      · rw [hcb.1] at hmem; exact hc cb hmem
+    · have hspec := iterBody_spec co P dir pr stop (headStep P pr stop oot s).1 (headStep P pr stop oot s).2.1
+      obtain ⟨cb0, hcbs, hit, -, -, -⟩ :=
+        iterBody_cbs co P dir pr stop (headStep P pr stop oot s).1 (headStep P pr stop oot s).2.1
+      refine ih _ hspec.1 ?_ hr
+      intro cb hmem
+      rw [hcbs, List.mem_cons] at hmem
+      rcases hmem with rfl | hmem
+      · rw [hit, hh.1]; exact h
+      · rw [hcb.1] at hmem; exact hc cb hmem
+
+/-- A `Busy` head saw no stop request. -/
+theorem headStep_busy_no_stop (P : Problem α) (pr : Params α) (stop : Nat → Bool) (oot : Bool)
+    (s : St α D) (hb : (headStep P pr stop oot s).2.2 = .Busy) :
+    stop (headStep P pr stop oot s).1.tick = false := by
+  cases hst : stop (headStep P pr stop oot s).1.tick
+  · rfl
+  · exfalso
+    rw [headStep_status, hst] at hb
+    unfold statusChain at hb
+    simp only [] at hb
+    split_ifs at hb
 
 /-- **Every iterate handed to the progress callback** (Busy callbacks and the final one) carries a
-    consistent prox step and ŷ, and satisfies the quadratic upper bound unless `L ≥ L_max`. -/
+    consistent prox step and ŷ, and satisfies the quadratic upper bound unless `L ≥ L_max` — with one
+    exception since `backtrack_qub` polls the stop flag (C19): the iterate of the *final* callback,
+    when a stop request was visible at the final loop-head check (tick `ticks − 1`, the exit block
+    adds the callback) — that request may have cut the last step-size loop short.  The flag is
+    never lowered (`StopMono`). -/
 theorem mainLoop_callbacks (co : Consts α) (P : Problem α) (dir : Direction D α) (pr : Params α)
-    (stop : Nat → Bool) (oot : Bool) (x0 y Sig errz0 : Vec α) (fuel : Nat) (s : St α D)
-    (h : Good P s.curr) (hq : s.fuelOut = false → QubOK pr s.curr)
+    (stop : Nat → Bool) (hm : StopMono stop) (oot : Bool) (x0 y Sig errz0 : Vec α) (fuel : Nat)
+    (s : St α D)
+    (h : Good P s.curr) (hq : s.fuelOut = false → Quiet stop s.tick → QubOK pr s.curr)
     (hc : ∀ cb ∈ s.cbs, Good P cb.it ∧ QubOK pr cb.it)
     (hr : (mainLoop co P dir pr stop oot x0 y Sig errz0 fuel s).fuelOut = false) :
     ∀ cb ∈ (mainLoop co P dir pr stop oot x0 y Sig errz0 fuel s).callbacks,
-      Good P cb.it ∧ QubOK pr cb.it := by
+      Good P cb.it ∧ (QubOK pr cb.it ∨ (cb.status ≠ .Busy ∧
+        stop ((mainLoop co P dir pr stop oot x0 y Sig errz0 fuel s).ticks - 1) = true)) := by
   have hsf : s.fuelOut = false := by
     cases hf : s.fuelOut
     · rfl
@@ -400,17 +631,26 @@ theorem mainLoop_callbacks (co : Consts α) (P : Problem α) (dir : Direction D 
     have hcb := headStep_cbs P pr stop oot s
     split_ifs at hr ⊢ with hb
     · intro cb hmem
+      have htk := (exitBlock_fields co pr (headStep P pr stop oot s).1 (headStep P pr stop oot s).2.1
+        (headStep P pr stop oot s).2.2 x0 y Sig errz0).2.2.2.2.2.1
+      rw [htk, Nat.add_sub_cancel]
       unfold exitBlock at hmem
       simp only [List.mem_reverse, List.mem_cons] at hmem
       rcases hmem with rfl | hmem
-      · simp only [hh.1]; exact ⟨h, hq hsf⟩
-      · rw [hcb.1] at hmem; exact hc cb hmem
-    · have hspec := iterBody_spec co P dir pr (headStep P pr stop oot s).1 (headStep P pr stop oot s).2.1
+      · simp only [hh.1]
+        refine ⟨h, ?_⟩
+        cases hst : stop (headStep P pr stop oot s).1.tick
+        · exact .inl (hq hsf ((quiet_of_mono hm hst).mono hh.2.2.2.1))
+        · exact .inr ⟨by simpa using hb, rfl⟩
+      · rw [hcb.1] at hmem; exact ⟨(hc cb hmem).1, .inl (hc cb hmem).2⟩
+    · have hbusy : (headStep P pr stop oot s).2.2 = .Busy := by simpa using hb
+      have hns := headStep_busy_no_stop P pr stop oot s hbusy
+      have hspec := iterBody_spec co P dir pr stop (headStep P pr stop oot s).1 (headStep P pr stop oot s).2.1
       obtain ⟨cb0, hcbs, hit, -, -, -⟩ :=
-        iterBody_cbs co P dir pr (headStep P pr stop oot s).1 (headStep P pr stop oot s).2.1
-      have hf2 : (iterBody co P dir pr (headStep P pr stop oot s).1 (headStep P pr stop oot s).2.1).fuelOut
+        iterBody_cbs co P dir pr stop (headStep P pr stop oot s).1 (headStep P pr stop oot s).2.1
+      have hf2 : (iterBody co P dir pr stop (headStep P pr stop oot s).1 (headStep P pr stop oot s).2.1).fuelOut
           = false := by
-        cases hf : (iterBody co P dir pr (headStep P pr stop oot s).1 (headStep P pr stop oot s).2.1).fuelOut
+        cases hf : (iterBody co P dir pr stop (headStep P pr stop oot s).1 (headStep P pr stop oot s).2.1).fuelOut
         · rfl
         · rw [mainLoop_fuelOut_mono co P dir pr stop oot x0 y Sig errz0 f _ hf] at hr
           exact absurd hr (by decide)
@@ -418,20 +658,21 @@ theorem mainLoop_callbacks (co : Consts α) (P : Problem α) (dir : Direction D 
       intro cb hmem
       rw [hcbs, List.mem_cons] at hmem
       rcases hmem with rfl | hmem
-      · rw [hit, hh.1]; exact ⟨h, hq hsf⟩
+      · rw [hit, hh.1]; exact ⟨h, hq hsf ((quiet_of_mono hm hns).mono hh.2.2.2.1)⟩
       · rw [hcb.1] at hmem; exact hc cb hmem
 
 /-- An accepted candidate passed the generated ratio test: the model value handed to the ratio is
     negative and `ρ ≥ ratio_threshold_acceptable`, with `ρ` the generated `pantr_candidateRatio` of
     `prox` (the forward-backward point `x̂ₖ`) and the candidate as they are at that moment. -/
 theorem trStage_accept_ratio (co : Consts α) (P : Problem α) (dir : Direction D α) (pr : Params α)
-    (s : St α D) (ha : (trStage co P dir pr s).accept = true) :
+    (stop : Nat → Bool)
+    (s : St α D) (ha : (trStage co P dir pr stop s).accept = true) :
     ∃ qModel : α, qModel < 0 ∧
-      (trStage co P dir pr s).rho
-        = candidateRatio pr (trStage co P dir pr s).prox (trStage co P dir pr s).cand qModel ∧
-      (trStage co P dir pr s).rho ≥ pr.ratioThresholdAcceptable ∧
-      (trStage co P dir pr s).Delta
-        = updatedRadius pr (trStage co P dir pr s).q (trStage co P dir pr s).rho s.Delta := by
+      (trStage co P dir pr stop s).rho
+        = candidateRatio pr (trStage co P dir pr stop s).prox (trStage co P dir pr stop s).cand qModel ∧
+      (trStage co P dir pr stop s).rho ≥ pr.ratioThresholdAcceptable ∧
+      (trStage co P dir pr stop s).Delta
+        = updatedRadius pr (trStage co P dir pr stop s).q (trStage co P dir pr stop s).rho s.Delta := by
   unfold trStage at ha ⊢
   simp only [] at ha ⊢
   by_cases h1 : ((dirInit dir s (fbsStep P pr s).1 (fbsStep P pr s).2.2).2.1 && !pr.disableAcceleration) = true
@@ -450,9 +691,10 @@ theorem trStage_accept_ratio (co : Consts α) (P : Problem α) (dir : Direction 
 /-- The trust radius after `trStage` is either unchanged or the generated update floored at
     `min_radius` by `std::fmax`. -/
 theorem trStage_Delta (co : Consts α) (P : Problem α) (dir : Direction D α) (pr : Params α)
+    (stop : Nat → Bool)
     (s : St α D) :
-    (trStage co P dir pr s).Delta = s.Delta ∨
-    ∃ q rho, (trStage co P dir pr s).Delta = updatedRadius pr q rho s.Delta := by
+    (trStage co P dir pr stop s).Delta = s.Delta ∨
+    ∃ q rho, (trStage co P dir pr stop s).Delta = updatedRadius pr q rho s.Delta := by
   unfold trStage
   simp only []
   split_ifs
@@ -464,90 +706,24 @@ theorem trStage_Delta (co : Consts α) (P : Problem α) (dir : Direction D α) (
   · exact .inl (by triv)
 
 theorem iterBody_Delta (co : Consts α) (P : Problem α) (dir : Direction D α) (pr : Params α)
+    (stop : Nat → Bool)
     (s : St α D) (eps : α) :
-    (iterBody co P dir pr s eps).Delta = (trStage co P dir pr s).Delta ∧
-    (iterBody co P dir pr s eps).accept = (trStage co P dir pr s).accept ∧
-    (iterBody co P dir pr s eps).q = (trStage co P dir pr s).q := by
+    (iterBody co P dir pr stop s eps).Delta = (trStage co P dir pr stop s).Delta ∧
+    (iterBody co P dir pr stop s eps).accept = (trStage co P dir pr stop s).accept ∧
+    (iterBody co P dir pr stop s eps).q = (trStage co P dir pr stop s).q := by
   unfold iterBody; exact ⟨rfl, rfl, rfl⟩
-
-/-! #### ticks (events) per stage -/
-
-theorem fbsStep_tick (P : Problem α) (pr : Params α) (s : St α D) :
-    s.tick + 2 ≤ (fbsStep P pr s).2.2 ∧ (fbsStep P pr s).2.2 ≤ s.tick + 3 := by
-  unfold fbsStep; simp only []; split_ifs <;> dsimp only <;> omega
-
-theorem dirInit_tick (dir : Direction D α) (s : St α D) (prox : Iterate α) (t : Nat) :
-    t ≤ (dirInit dir s prox t).2.2 ∧ (dirInit dir s prox t).2.2 ≤ t + 2 := by
-  unfold dirInit; simp only []; split_ifs <;> dsimp only <;> omega
-
-theorem trustRegionStep_tick (co : Consts α) (dir : Direction D α) (d : D) (t : Nat) (prox : Iterate α)
-    (Delta : α) (q : Vec α) :
-    t + 1 ≤ (trustRegionStep co dir d t prox Delta q).2.1 ∧
-    (trustRegionStep co dir d t prox Delta q).2.1 ≤ t + 2 := by
-  unfold trustRegionStep; simp only []; split_ifs <;> dsimp only <;> omega
-
-theorem candidateFbe_tick (P : Problem α) (pr : Params α) (prox cand : Iterate α) (q : Vec α) (t : Nat) :
-    t + 2 ≤ (candidateFbe P pr prox cand q t).2.1 ∧
-    (candidateFbe P pr prox cand q t).2.1 ≤ t + 3 + 2 * (candidateFbe P pr prox cand q t).2.2.1 := by
-  unfold candidateFbe
-  simp only []
-  split_ifs
-  · generalize evalPsiHat P _ = c0
-    have := backtrackQub_tick P pr pr.qubFuel c0 (t + 3) 0
-    omega
-  · dsimp only; omega
-
-theorem trStage_tick (co : Consts α) (P : Problem α) (dir : Direction D α) (pr : Params α) (s : St α D) :
-    s.tick + 2 ≤ (trStage co P dir pr s).tick ∧
-    (trStage co P dir pr s).tick ≤ s.tick + 10 + 2 * (trStage co P dir pr s).backtracks := by
-  have h1 := fbsStep_tick P pr s
-  have h2 := dirInit_tick dir s (fbsStep P pr s).1 (fbsStep P pr s).2.2
-  unfold trStage
-  simp only []
-  split_ifs
-  · unfold trAttempt
-    simp only []
-    generalize htr : trustRegionStep co dir _ _ _ _ _ = tr
-    have h3 := trustRegionStep_tick co dir (dirInit dir s (fbsStep P pr s).1 (fbsStep P pr s).2.2).1
-      (dirInit dir s (fbsStep P pr s).1 (fbsStep P pr s).2.2).2.2 (fbsStep P pr s).1 s.Delta s.q
-    rw [htr] at h3
-    split_ifs
-    · have h4 := candidateFbe_tick P pr (fbsStep P pr s).1 s.cand tr.2.2.1 tr.2.1
-      simp only []
-      omega
-    · simp only []; omega
-  · simp only []; omega
-
-theorem acceptStage_tick (P : Problem α) (dir : Direction D α) (pr : Params α) (m : Mid α D) (t0 : Nat) :
-    t0 + 1 ≤ (acceptStage P dir pr m t0).tick ∧
-    (acceptStage P dir pr m t0).tick ≤ t0 + 4 + 2 * (acceptStage P dir pr m t0).backtracks := by
-  unfold acceptStage
-  simp only []
-  by_cases hc : pr.computeRatioUsingNewStepsize
-  · simp only [hc, Bool.not_true, Bool.false_eq_true, if_false]
-    split_ifs <;> dsimp only <;> omega
-  · simp only [hc, Bool.not_false, if_true]
-    have := backtrackQub_tick P pr pr.qubFuel (evalPsiHat P m.cand) (t0 + 1) 0
-    split_ifs <;> dsimp only <;> omega
-
-theorem rejectStage_tick (P : Problem α) (dir : Direction D α) (pr : Params α) (m : Mid α D) (t0 : Nat) :
-    t0 + 1 ≤ (rejectStage P dir pr m t0).tick ∧
-    (rejectStage P dir pr m t0).tick ≤ t0 + 4 + 2 * (rejectStage P dir pr m t0).backtracks := by
-  unfold rejectStage
-  simp only []
-  have := backtrackQub_tick P pr pr.qubFuel (evalPsiHat P m.prox) (t0 + 1) 0
-  split_ifs <;> dsimp only <;> omega
 
 /-- **Work of one iteration**, in events (problem evaluations by the solver, direction calls, the
     callback): at least 4, at most `15 + 2·(step-size backtracks of this iteration)`. -/
 theorem iterBody_tick (co : Consts α) (P : Problem α) (dir : Direction D α) (pr : Params α)
+    (stop : Nat → Bool)
     (s : St α D) (eps : α) :
-    s.tick + 4 ≤ (iterBody co P dir pr s eps).tick ∧
-    (iterBody co P dir pr s eps).tick + 2 * s.stats.stepsizeBacktracks
-      ≤ s.tick + 15 + 2 * (iterBody co P dir pr s eps).stats.stepsizeBacktracks := by
-  have h1 := trStage_tick co P dir pr s
-  have h2 := acceptStage_tick P dir pr (trStage co P dir pr s) ((trStage co P dir pr s).tick + 1)
-  have h3 := rejectStage_tick P dir pr (trStage co P dir pr s) ((trStage co P dir pr s).tick + 1)
+    s.tick + 4 ≤ (iterBody co P dir pr stop s eps).tick ∧
+    (iterBody co P dir pr stop s eps).tick + 2 * s.stats.stepsizeBacktracks
+      ≤ s.tick + 15 + 2 * (iterBody co P dir pr stop s eps).stats.stepsizeBacktracks := by
+  have h1 := trStage_tick co P dir pr stop s
+  have h2 := acceptStage_tick P dir pr stop (trStage co P dir pr stop s) ((trStage co P dir pr stop s).tick + 1)
+  have h3 := rejectStage_tick P dir pr stop (trStage co P dir pr stop s) ((trStage co P dir pr stop s).tick + 1)
   unfold iterBody
   simp only []
   split_ifs <;> omega
